@@ -37,7 +37,59 @@ def run(ctx):
     ctx.count('methods of SortableDict', len(meths))
     _add_item(ctx, meths)
     _delegations(ctx, m, meths)
+    mapping_overrides(ctx, m)
     _who_may_write(ctx, m)
+
+
+MAPPING_MIXINS = ('items', 'keys', 'values', 'get', '__contains__', 'pop', 'popitem', 'update', 'setdefault', 'clear', '__eq__',
+                  '__ne__', '__reversed__')
+PAIR_FORMS = {
+    'items': ('[(k, {s}._values[k]) for k in {s}._order]', 'ItemsView({s})', 'col.ItemsView({s})',
+              '[(k, {s}[k]) for k in {s}._order]', '[(k, {s}[k]) for k in {s}]', 'list(zip({s}._order, [{s}._values[k] for k in {s}._order]))'),
+    'keys': ('list({s}._order)', '{s}._order[:]', 'KeysView({s})', 'col.KeysView({s})', 'iter({s}._order)'),
+    'values': ('[{s}._values[k] for k in {s}._order]', 'ValuesView({s})', 'col.ValuesView({s})', '[{s}[k] for k in {s}]'),
+}
+
+
+def mapping_overrides(ctx, m, rule='C16.D5'):
+    """SortableDict inherits items/keys/values/... from MutableMapping, which derive them from __iter__ (presentation
+    order) and __getitem__.  An override must pair each key of _order with ITS value: `_values` iterates in insertion
+    order, `_order` in presentation order -- zipping the two mis-pairs every key after a positioned insert, a
+    relocation, sort() or reverse()."""
+    try:
+        meths = m.methods(MOD, 'SortableDict')
+    except AnalysisError as e:
+        ctx.error(rule, str(e))
+        return
+    over = [n for n in MAPPING_MIXINS if n in meths]
+    if not over:
+        ctx.ob(rule, 'SortableDict inherits %s from MutableMapping (derived from __iter__ and __getitem__)'
+               % ', '.join(MAPPING_MIXINS[:5]), True, F)
+        return
+    for name in over:
+        fn = meths[name]
+        s_ = fn.args.args[0].arg
+        rets = [r for r in walk_no_nested(fn) if isinstance(r, ast.Return) and r.value is not None]
+        texts = [norm(r.value) for r in rets]
+        mixes = [r for r in rets if '%s._order' % s_ in norm(r.value) and any(
+            x in norm(r.value) for x in ('%s._values.values()' % s_, '%s._values.items()' % s_, '%s._values.keys()' % s_,
+                                         'list(%s._values)' % s_))]
+        only_values = [r for r in rets if '%s._values.' % s_ in norm(r.value) and '%s._order' % s_ not in norm(r.value)
+                       and name in ('items', 'keys', 'values')]
+        if mixes or only_values:
+            r = (mixes or only_values)[0]
+            ctx.violation(rule, '%s::SortableDict.%s' % (F, name), norm(r),
+                          "m = SortableDict(); m['a'] = 1; m['b'] = 2; m.add_item('c', 3, index=0): %s() %s -- the value dict "
+                          "iterates in insertion order [a, b, c], the order list says [c, a, b]; a dumped grid carries one "
+                          "column's metadata under another column's name"
+                          % (name, 'pairs c with 1, a with 2, b with 3' if mixes else 'comes out in insertion order'),
+                          'SortableDict.%s is built from the value dict\'s own iteration order instead of looking each key of '
+                          '_order up' % name, file=F, line=r.lineno, engine='E9')
+        elif name in PAIR_FORMS and texts and all(t in [f.format(s=s_) for f in PAIR_FORMS[name]] for t in texts):
+            ctx.ob(rule, 'SortableDict.%s pairs every key of _order with its own value' % name, True, '%s:%d' % (F, fn.lineno))
+        else:
+            ctx.error(rule, 'SortableDict overrides the mapping method %s (`%s`); its conformance is not analysed'
+                      % (name, '; '.join(texts)[:80]))
 
 
 def _classify(e, a):
@@ -404,6 +456,24 @@ def _delegations(ctx, m, meths):
             got = _reorder_form(ctx, fn, name)
             if got is False:
                 continue
+        if name == 'sort' and got is None:
+            # explicit signature: sort(key=None, reverse=False)
+            pnames = [x.arg for x in fn.args.args[1:]]
+            calls = [c for c in walk_no_nested(fn) if isinstance(c, ast.Call) and norm(c.func) == 'self._order.sort']
+            revs = [c for c in walk_no_nested(fn) if isinstance(c, ast.Call) and norm(c.func) in ('self.reverse', 'self._order.reverse')]
+            if len(calls) == 1 and set(pnames) <= {'key', 'reverse'}:
+                kw = {k.arg: norm(k.value) for k in calls[0].keywords}
+                passes_all = all(kw.get(p_) == p_ for p_ in pnames)
+                if passes_all and not revs and len(body_wo_doc(fn)) == 1:
+                    got = 'self._order.sort(*args, **kwargs)'
+                elif 'reverse' in pnames and kw.get('reverse') != 'reverse' and revs:
+                    ctx.violation('C16.D5', '%s::SortableDict.sort' % F, norm(revs[0]),
+                                  "tags site, dis, tz with priorities 2, 2, 3: m.sort(key=prio.get, reverse=True) must give [tz, site, "
+                                  "dis] (a stable descending sort keeps tied keys in their current order); sorting ascending and "
+                                  "then reversing gives [tz, dis, site] -- the tied keys come out reversed",
+                                  'sort(reverse=True) is implemented as sort() followed by reverse(), which is not the stable '
+                                  'descending sort of the reference model', file=F, line=revs[0].lineno, engine='E9')
+                    continue
         if got is None:
             ctx.error('C16.D5', 'SortableDict.%s is no longer a one-expression method' % name)
             continue
